@@ -25,7 +25,8 @@ Definition re_menu : list (str * bool) := [
   ([46], true);                        (* 9  .      *)
   ([97; 58; 63; 92; 46], true);        (* 10 a:?\.  *)
   ([94; 97; 46], true);                (* 11 ^a.    *)
-  ([94; 98; 36], true)                 (* 12 ^b$    *)
+  ([94; 98; 36], true);                (* 12 ^b$    *)
+  ([94; 91; 97; 45; 122; 46; 93; 43; 36], true)  (* 13 ^[a-z.]+$ *)
 ].
 
 Fixpoint menu_find (e : str) (i : N) (m : list (str * bool)) : option (N * bool) :=
@@ -58,8 +59,9 @@ Inductive case :=
   (** loaders: which = 0 domain.Load / LoadFromTextReader with the nil parser into
       a fresh MixMatcher with default [dflt] (queries run on whatever was loaded),
       1 domain_set.NewDomainSet (exps + one file), 2 plugin hosts.NewHosts
-      (entries + one file), 3 redirect.NewRedirect (rules + one file); for 1..3
-      the queries run only when the constructor succeeded. [intended] = the
+      (entries + one file), 3 redirect.NewRedirect (rules + one file), 4 the qname
+      matcher of sequences (qname.QuickSetup "exp ... &file" -> base_domain.NewMatcher);
+      for 1..4 the queries run only when the constructor succeeded. [intended] = the
       rules the generator meant to express (up to the first broken line). *)
 | CLoad (which : N) (dflt : str) (entries : list str) (text : str) (failed : bool)
         (intended : list irule) (qs : list query).
@@ -118,12 +120,16 @@ Definition parse_redirect : @parse_fn VV :=
 (** domain_set.LoadExps hands the expression to Add as it is *)
 Definition parse_raw : @parse_fn VV := fun s => Some (s, []).
 
+(** the providers that load value-less sets with default type "domain" and keep
+    the loaded matcher only [if Len() > 0]: domain_set (1) and base_domain / qname (4) *)
+Definition is_provider (which : N) : bool := (which =? 1) || (which =? 4).
+
 Definition entry_parser (which : N) : @parse_fn VV :=
-  match which with 0 => pattern_only [] | 1 => parse_raw | 2 => parse_hosts | _ => parse_redirect end.
+  match which with 0 => pattern_only [] | 1 => parse_raw | 2 => parse_hosts | 4 => parse_raw | _ => parse_redirect end.
 Definition line_parser (which : N) : @parse_fn VV :=
-  match which with 0 => pattern_only [] | 1 => pattern_only [] | 2 => parse_hosts | _ => parse_redirect end.
+  match which with 0 => pattern_only [] | 1 => pattern_only [] | 2 => parse_hosts | 4 => pattern_only [] | _ => parse_redirect end.
 Definition which_default (which : N) (dflt : str) : str :=
-  match which with 0 => dflt | 1 => s_domain | _ => s_full end.
+  match which with 0 => dflt | 1 => s_domain | 4 => s_domain | _ => s_full end.
 
 (** entries first (stop at the first error), then the file *)
 Definition run_load (which : N) (dflt : str) (entries : list str) (text : str) : @mix VV * bool :=
@@ -132,9 +138,9 @@ Definition run_load (which : N) (dflt : str) (entries : list str) (text : str) :
   if negb (e1 =? 0) then (m1, true)
   else let '(m2, e2) := load_text re_valid_j (line_parser which) d text m1 in (m2, negb (e2 =? 0)).
 
-(** NewDomainSet keeps its own matcher only [if m.Len() > 0] *)
+(** NewDomainSet and base_domain.NewMatcher keep their own matcher only [if m.Len() > 0] *)
 Definition loaded_view (which : N) (m : @mix VV) : @mix VV :=
-  if (which =? 1) && (mix_len m =? 0) then empty_mix else m.
+  if is_provider which && (mix_len m =? 0) then empty_mix else m.
 
 Definition agree (c : case) : bool :=
   match c with
